@@ -9,8 +9,8 @@ BUDGET = {"quick": 40, "thorough": 600}
 EVIDENCE = {
     "rule": "pipeline family with the poll timeout taken as infinite (select/poll only return on readiness), "
             "response sizes drawn around sendbuf_len, send_bytes and outbuf_high_watermark, 1-3 connections, both "
-            "pollers, clients that keep reading (eager or slow) and never disconnect; oracle evaluated in the "
-            "quiescent state (every thread blocked, no event, no timer); distinct = distinct history digest; "
+            "pollers, clients that keep reading (eager or slow; some shut down their sending side) and never disconnect; applications pause before, inside or after their output; oracle evaluated in the "
+            "quiescent state (every thread blocked, no event, no timer) and, for lost wake-ups, at every instant where all threads are blocked; distinct = distinct history digest; "
             "non-trivial = the run reached quiescence after >= 1 worker->I/O wake-up through the trigger pipe",
     "real": common.REAL, "stub": common.STUB,
     "assumptions": [
